@@ -252,6 +252,24 @@ def canon(x):
     return json.dumps(x, sort_keys=True, default=str)
 
 
+def abbreviate(x, max_str=300, max_list=12, depth=0):
+    """evidence samples are for reading: long strings and lists are cut (with a note of the real size)"""
+    if isinstance(x, str):
+        return x if len(x) <= max_str else x[:max_str] + "...<%d chars>" % len(x)
+    if isinstance(x, (list, tuple)):
+        out = [abbreviate(v, max_str, max_list, depth + 1) for v in x[:max_list]]
+        if len(x) > max_list:
+            out.append("...<%d items>" % len(x))
+        return out
+    if isinstance(x, dict):
+        items = list(x.items())
+        out = {str(k): abbreviate(v, max_str, max_list, depth + 1) for k, v in items[:40]}
+        if len(items) > 40:
+            out["..."] = "<%d keys>" % len(items)
+        return out
+    return x
+
+
 def load_known():
     p = os.path.join(ROOT, "known_findings.json")
     if not os.path.exists(p):
@@ -418,7 +436,7 @@ def run_check(mod, tier, seed, replay=None):
         stats["families"][fam.name] = fstat
         if cases:
             k = min(len(cases) - 1, len(fam.corpus))
-            samples.append({"family": fam.name, "case": cases[k], "impl_obs": impl_obs[k], "model_obs": model_obs[k]})
+            samples.append(abbreviate({"family": fam.name, "case": cases[k], "impl_obs": impl_obs[k], "model_obs": model_obs[k]}))
 
     # ---- verdict
     reported_unknown = 0
